@@ -118,6 +118,18 @@ func (r *run) dispatch(e Ev) {
 		if d := a.dt(e.D); d != nil {
 			r.tx(a, d, e)
 		}
+	case "group":
+		// several clients act at (almost) the same time: nothing is delivered between their operations,
+		// so that the pushes, answers and notifications they cause overlap and are interleaved by the
+		// seeded choice of the settle step that follows the event
+		for _, b := range e.Body {
+			a := r.actor(b.A)
+			if d := a.dt(b.D); d != nil {
+				r.local(a, d, apiOf(d.pub), b)
+			}
+			synctest.Wait() // the client's own goroutines run until they wait for the transport
+		}
+		r.probe("group")
 	case "sync":
 		r.syncEvent([]*actor{r.actor(e.A)}, e)
 	case "par":
@@ -171,7 +183,11 @@ func (r *run) afterEvent(e Ev) {
 	h := kernel.NewHasher()
 	for _, a := range r.w.actors {
 		for _, d := range a.dts {
-			h.Str(a.name).Str(d.key).Str(r.viewOf(d))
+			v := r.viewOf(d)
+			h.Str(a.name).Str(d.key).Str(v)
+			if r.verbose && noClip {
+				r.logf("  settled: %s %s = %s", a.name, d.key, clip(v, 300))
+			}
 		}
 	}
 	h.Str(r.storeDigest())
